@@ -108,7 +108,7 @@ def compress_text(t, n, kind, pre, post):
     T = [PRE]
     ne = len(pre) + n + len(post)
     nk = len(pre) + (2 if kind == "const" else 3) + len(post)
-    T.append("static rtosc_arg_val_t E[%d], K[%d], X[%d];" % (ne, nk, ne))
+    T.append("static rtosc_arg_val_t E[%d], K[%d], X[%d], E2[%d], K2[%d];" % (ne, nk, ne + 1, ne + 1, nk))
     T.append("static char be[64], bk[64];")
     T.append("void harness(void)\n{")
     e = k = 0
@@ -135,11 +135,48 @@ def compress_text(t, n, kind, pre, post):
         T.append("    mk(&E[%d], '%s'); K[%d] = E[%d];" % (e, p, k, e))
         e += 1
         k += 1
-    # independent list X of E's shape
+    # independent list X of E's shape, one element longer (used with lengths ne-1, ne, ne+1)
     x = 0
-    for p in pre + [t] * n + post:
+    for p in pre + [t] * n + post + [post[-1] if post else t]:
         T.append("    mk(&X[%d], '%s');" % (x, p))
         x += 1
+    # a second, independent run (same prefix/suffix symbols): compressed K2 / expanded E2, run length n or n+1
+    T.append("#ifndef N2\n#define N2 %d\n#endif" % n)
+    T.append("    rtosc_arg_val_t start2, delta2; mk(&start2, '%s'); mk(&delta2, '%s');" % (t, t))
+    e2 = k2 = 0
+    for i_, p in enumerate(pre):
+        T.append("    E2[%d] = E[%d]; K2[%d] = E[%d];" % (e2, i_, k2, i_))
+        e2 += 1
+        k2 += 1
+    if kind == "const":
+        T.append("    for(int j = 0; j < N2; j++) E2[%d + j] = start2;" % e2)
+        T.append("    mk_rep(&K2[%d], N2, 0); K2[%d] = start2;" % (k2, k2 + 1))
+        k2 += 2
+    else:
+        fld = {"i": "i", "c": "i", "h": "h"}[t]
+        ut = "uint32_t" if fld == "i" else "uint64_t"
+        it_ = "int32_t" if fld == "i" else "int64_t"
+        T.append("    for(int j = 0; j < N2; j++) { E2[%d + j] = start2; E2[%d + j].val.%s = (%s)((%s)start2.val.%s + (%s)j * (%s)delta2.val.%s); }" % (e2, e2, fld, it_, ut, fld, ut, ut, fld))
+        T.append("    mk_rep(&K2[%d], N2, 1); K2[%d] = delta2; K2[%d] = start2;" % (k2, k2 + 1, k2 + 2))
+        k2 += 3
+    for i_, p in enumerate(post):
+        T.append("    E2[%d + N2] = E[%d]; K2[%d] = E[%d];" % (e2 + i_, len(pre) + n + i_, k2, len(pre) + n + i_))
+        k2 += 1
+    ne2 = "(%d + N2)" % (len(pre) + len(post))
+    T.append("#if PART == 2")
+    T.append('    CHECK(EQ(K, %d, K2, %d) == EQ(E, %d, E2, %s), "C16 equality of two compressed lists equals equality of their expansions");' % (nk, nk, ne, ne2))
+    T.append('    CHECK(sgn(CMP(K, %d, K2, %d)) == sgn(CMP(E, %d, E2, %s)), "C16 order of two compressed lists equals order of their expansions");' % (nk, nk, ne, ne2))
+    T.append('    CHECK(sgn(CMP(K2, %d, K, %d)) == sgn(CMP(E2, %s, E, %d)), "C16 order of two compressed lists equals order of their expansions (swapped)");' % (nk, nk, ne2, ne))
+    T.append('    CHECK((CMP(K, %d, K2, %d) == 0) == EQ(K, %d, K2, %d), "C16 cmp==0 iff eq on compressed lists");' % (nk, nk, nk, nk))
+    T.append("#endif\n#if PART == 3")
+    for dl in (-1, 1):
+        if ne + dl < 0:
+            continue
+        T.append('    CHECK(sgn(CMP(K, %d, X, %d)) == sgn(CMP(E, %d, X, %d)), "C16 order against a list of different length does not depend on compression");' % (nk, ne + dl, ne, ne + dl))
+        T.append('    CHECK(sgn(CMP(X, %d, K, %d)) == sgn(CMP(X, %d, E, %d)), "C16 order against a list of different length does not depend on compression (swapped)");' % (ne + dl, nk, ne + dl, ne))
+        T.append('    CHECK(EQ(K, %d, X, %d) == EQ(E, %d, X, %d), "C16 equality against a list of different length does not depend on compression");' % (nk, ne + dl, ne, ne + dl))
+    T.append("#endif")
+    T.append("#if PART == 1")
     T.append('    CHECK(EQ(E, %d, K, %d) && EQ(K, %d, E, %d), "C16 a run and its compressed form are equal");' % (ne, nk, nk, ne))
     T.append('    CHECK(CMP(E, %d, K, %d) == 0 && CMP(K, %d, E, %d) == 0, "C16 a run and its compressed form compare as 0");' % (ne, nk, nk, ne))
     T.append('    CHECK(sgn(CMP(E, %d, X, %d)) == sgn(CMP(K, %d, X, %d)), "C16 order against a third list does not depend on compression");' % (ne, ne, nk, ne))
@@ -153,6 +190,7 @@ def compress_text(t, n, kind, pre, post):
     T.append('      CHECK(ie.i == %d && ik.i == %d && cnt == %d, "C16 iteration yields the same number of values");' % (ne, nk, ne))
     T.append("    }")
     if t in "sSb" or any(x in "sSb" for x in pre + post):
+        T.append("#endif")
         T.append('    WITNESS("C16 end");\n}')
         return "\n".join(T) + "\n"
     T.append("    for(int j = 0; j < 64; j++) { be[j] = nd_char(); bk[j] = be[j]; }")
@@ -160,6 +198,7 @@ def compress_text(t, n, kind, pre, post):
     T.append('      CHECK(le == lk && le > 0, "C16 OSC message built from the list has the same length with and without compression");')
     T.append('      int same = 1; for(int j = 0; j < 64; j++) if((size_t)j < le && be[j] != bk[j]) same = 0;')
     T.append('      CHECK(same, "C16 OSC message built from the list is byte-identical with and without compression"); }')
+    T.append("#endif")
     T.append('    WITNESS("C16 end");\n}')
     return "\n".join(T) + "\n"
 
@@ -234,11 +273,20 @@ def build(ctx):
     for t, n, kind, pre, post in runs:
         nm = "r_%s%d%s_%s_%s" % (t, n, kind[0], "".join(pre) or "0", "".join(post) or "0")
         h = ctx.write("gen/%s.c" % nm, compress_text(t, n, kind, pre, post))
-        g = ctx.ir_translate(nm, h, defines=inc)
         strs = t in "sSb" or any(x in "sSb" for x in pre + post)
         us = ["strlen.0:12", "strcmp.0:6", "memcmp.0:6", "vsosc_null.0:12", "nreserved.0:12"] + ["rtosc_amessage.%d:12" % k for k in range(6)]
-        ctx.add(vlib.Query(nm, [g] + lib, unwind=10 if strs else 70, unwindset=[] if strs else us, native_sources=[h] + nlib, native_flags=inc, objbits=12,
-                           descr={"compression": "%s run of %d x '%s'" % (kind, n, t), "prefix": pre, "suffix": post}))
+        for part, n2 in ((1, n), (2, n), (2, n + 1), (3, n)):
+            if part == 2 and t in "TFNI":
+                continue   # value-less types: nothing to distinguish two runs (and the query does not finish)
+            defs = ["-DN2=%d" % n2, "-DPART=%d" % part]
+            qn = "%s_p%d_n%d" % (nm, part, n2)
+            msgpart = part == 1 and not strs
+            q = ctx.add(vlib.Query(qn, ["@IR@"] + lib, defines=defs, unwind=70 if msgpart else 12, unwindset=us if msgpart else [],
+                                   native_sources=[h] + nlib, native_flags=inc, objbits=12,
+                                   descr={"compression": "%s run of %d x '%s'" % (kind, n, t), "prefix": pre, "suffix": post,
+                                          "part": {1: "run vs compressed form vs third list, iteration, message bytes", 2: "two compressed lists (second run length %d)" % n2,
+                                                   3: "compressed list vs lists one shorter / one longer"}[part]}))
+            q.prepare = (lambda qn_, h_, defs_: (lambda q_: q_.sources.__setitem__(0, ctx.ir_translate(qn_, h_, defines=inc + defs_))))(qn, h, defs)
     ctx.bounds = {"values": "all 32/64-bit integers, all non-NaN floats/doubles, all time tags, strings of 0..2 chars, blobs of 0..2 bytes, all midi bytes",
                   "lists": "0..4 slots per list", "arrays": "length 0..2 (3 thorough)", "runs": "length 1..7, integer delta ranges (wrap-around arithmetic) and constant runs"}
     ctx.assumptions = ["floats and doubles are not NaN (the statement speaks of numeric order)", "string pointers are non-NULL",
